@@ -2022,8 +2022,9 @@ func explainKQLFilter(sb *strings.Builder, filter *kqlFilter, indent string, dep
 
 	// Output the right side - could be a string literal or identifier
 	rightVal := filter.right
-	if (strings.HasPrefix(rightVal, "'") && strings.HasSuffix(rightVal, "'")) ||
-		(strings.HasPrefix(rightVal, "\"") && strings.HasSuffix(rightVal, "\"")) {
+	// (a lone quote character is both prefix and suffix but encloses nothing)
+	if len(rightVal) >= 2 && ((strings.HasPrefix(rightVal, "'") && strings.HasSuffix(rightVal, "'")) ||
+		(strings.HasPrefix(rightVal, "\"") && strings.HasSuffix(rightVal, "\""))) {
 		// String literal - remove quotes and escape for output
 		rightVal = rightVal[1 : len(rightVal)-1]
 		fmt.Fprintf(sb, "%s  Literal \\'%s\\'\n", indent, rightVal)
